@@ -17,7 +17,8 @@ SHRINK_LISTS = [('items',), ('items', '*', 'inner', '*'), ('items', '*', 'cuts')
                 ('cuts',)]
 EXPECTED_PROBES = ['fragmented', 'ctl_between_fragments', 'empty_fragment',
                    'nonminimal_len', 'len64', 'reply_and_frames_same_read',
-                   'cut_inside_header', 'final_close', 'app_close_mid_stream']
+                   'cut_inside_header', 'final_close', 'app_close_mid_stream',
+                   'with_deflate', 'after_broken_connection']
 
 
 def plan(tier):
@@ -48,6 +49,20 @@ def make_case(family, i, rng, tier):
                                     'nth': sum(1 for e in enc0.expected[:k]
                                                if e[0] == name)}
             case.setdefault('close', {'code': 1000, 'reason': u'ack'})
+    if rng.random() < 0.3:
+        # permessage-deflate negotiated with seeded parameters; most data
+        # messages arrive compressed (history carried or not, as negotiated)
+        case['deflate'] = {'sw': rng.choice([8, 9, 11, 15]),
+                           'snct': rng.random() < 0.4,
+                           'cnct': rng.random() < 0.4}
+        for it in items:
+            if it['kind'] in ('text', 'binary'):
+                it['z'] = rng.random() < 0.75
+    if not big and rng.random() < 0.1:
+        # an earlier connection of the same object that broke off in the
+        # middle of something; nothing of it may leak into this one
+        case['prelude'] = rng.choice(['mid_codepoint', 'bad_utf8',
+                                      'mid_fragmented', 'mid_frame'])
     case.update(ST.seg_fields(rng, big))
     case['epoch'] = rng.choice([0, 1.7e9])
     case['poll'] = rng.choice([5, 5, 0.5, 60])
@@ -61,7 +76,23 @@ def build(case):
     if cl:
         items.append({'kind': 'close', 'code': cl['code'],
                       'reason': cl['reason']})
-    enc = ST.encode_items(items)
+    transform = None
+    extra = ()
+    ws = None
+    dfl = case.get('deflate')
+    if dfl:
+        dp = peer.DeflatePeer(dfl['sw'], 15, dfl['snct'], dfl['cnct'])
+
+        def transform(payload, it):
+            if it.get('z'):
+                return dp.compress(payload), 1
+            return payload, 0
+        extra = [S.deflate_ext_header(dfl['sw'], None, dfl['snct'],
+                                      dfl['cnct'])]
+        ws = {'compress': True}
+    enc = ST.encode_items(items, transform=transform)
+    if dfl:
+        enc.probes['with_deflate'] += 1
     if cl:
         tail = [{'op': 'await_close', 'timeout': 5000000}, S.eof()]
     else:
@@ -74,11 +105,25 @@ def build(case):
             enc.expected[-1] = ('closed',) + enc.expected[-1][1:]
         enc.probes['app_close_mid_stream'] += 1
     scenario = ST.stream_scenario(
-        case, enc, tail, app=app,
+        case, enc, tail, app=app, extra_headers=extra, ws=ws,
         connect={'poll': case.get('poll', 5),
                  'auto_pong': case.get('auto_pong', True),
                  'close_timeout': None})
-    ncuts = len(scenario['conns'][0]['server'][1]['cuts'])
+    pre = case.get('prelude')
+    if pre:
+        fr = {'mid_codepoint': peer.enc_frame(1, b'abc\xe2\x82', fin=0),
+              'bad_utf8': peer.enc_frame(1, b'abc\xff'),
+              'mid_fragmented': peer.enc_frame(2, b'frag', fin=0) +
+              peer.enc_frame(9, b'p'),
+              'mid_frame': peer.enc_frame(2, b'x' * 300)[:40]}[pre]
+        first = {'server': S.handshake_steps(extra) + [S.send(fr),
+                                                       S.eof(after=1003)]}
+        scenario['conns'] = [first] + scenario['conns']
+        scenario['n_connects'] = 2
+        for rule in scenario.get('app') or []:
+            rule['when'] = dict(rule['when'], attempt=1)
+        enc.probes['after_broken_connection'] += 1
+    ncuts = len(scenario['conns'][-1]['server'][1]['cuts'])
     return scenario, enc.expected, enc.probes, \
         ''.join(enc.layout) + '/%d' % ncuts
 
@@ -92,6 +137,8 @@ def execute(case):
     res.stats.update(tr.world.stats)
     res.sim_us = tr.world.now
     res.digest = tr.digest()
+    if case.get('prelude'):
+        tr.events = oracle.split_attempts(tr.events)[-1]
     got = [oracle.payload_of(e.snap) for e in oracle.msg_events(tr)]
     names = tr.names()
     # ---- the property
